@@ -655,7 +655,9 @@ func init() {
 				break
 			}
 		}
-		c.Eval(1); c.Distinct("a"); c.Distinct("b")
+		c.Eval(1)
+		c.Distinct("a")
+		c.Distinct("b")
 	})
 }
 
